@@ -100,6 +100,8 @@ def law_cases(R, r, s, t, sep):
     if t:
         R.expect("replace(%s, %s, %s)" % (Ss, St, Sp), s.replace(t, sep), "replace:host", ("repl", s, t, sep))
         R.expect("replace(%s + %s + %s, %s, 'XY')" % (Ss, St, Ss, St), (s + t + s).replace(t, "XY"), "replace:host-planted", ("repl2", s, t))
+        R.expect("replace(%s + %s + %s + %s, %s, '')" % (St, Ss, St, St, St), (t + s + t + t).replace(t, ""), "replace:host-delete", ("repl3", s, t))
+        R.expect("replace(%s + %s, %s, %s + %s)" % (Ss, St, St, St, St), (s + t).replace(t, t + t), "replace:host-grow", ("repl4", s, t))
     # 3. reverse
     R.expect("reverse(%s)" % Ss, s[::-1], "reverse:host", ("rev", s))
     R.expect("reverse(reverse(%s)) == %s" % (Ss, Ss), True, "reverse:involution", ("rev2", s))
